@@ -66,6 +66,8 @@ def props_of(m):
         ps.add('C15')
     if base in ('check_filters', 'check_filter'):
         ps.add('C10')
+    if base.startswith('blob_bytes'):
+        ps.add('C07')
     if base in ('worker_alive', 'close'):
         ps.add('C13')
     query = base in ('read', 'contains', 'read_absent', 'contains_absent', 'all_wm', 'read_all', 'read_with',
